@@ -53,6 +53,17 @@ Proof.
   exists (firstn 6 (tr PWs (conv PWs))), (VStart 2 1 DQuery), (skipn 7 (tr PWs (conv PWs))). vm_compute. auto.
 Qed.
 
+(** keep-alive ticks anywhere in a run: before the init (graphql-ws: silent; graphql-transport-ws: a
+    pong), after it (ka / pong), and the run still meets the Spec; [ws_ack_first] has such runs in
+    its scope *)
+Example tick_instance :
+  let ls p := [LTick; LFrame (Msg TInit 0 PayNone); LTick; LFrame (Msg (match p with PWs => TStart | PTws => TSubscribe end) 1 (PayDoc DSub)); LTick; LEmit 3] in
+  frames (tr PWs (ls PWs)) = [SAck; SKa; SKa; SKa; SData 1 (CEv 3 1)] /\
+  frames (tr PTws (ls PTws)) = [SPong; SAck; SPong; SPong; SData 1 (CEv 3 1)] /\
+  spec_verdict PWs (tr PWs (ls PWs)) = None /\ spec_verdict PTws (tr PTws (ls PTws)) = None /\
+  closed (fin PWs (ls PWs)) = false.
+Proof. vm_compute. intuition. Qed.
+
 (** a connection on which every init is refused: the hypothesis of [ws_nothing_without_init] *)
 Example refused_instance :
   let ls := [LFrame (Msg TInit 0 PayReject); LFrame (Msg TStart 1 (PayDoc DQuery)); LFrame (Msg TStop 1 PayNone)] in
